@@ -27,40 +27,61 @@ from .common import find_node, rule
 
 PROP = "C06"
 READY = False
-TECHNIQUE = "call-site and data-flow rules over AST/CFG/call graph: engine confinement, sibling-expression comparison, context-manager nesting, save/restore pairing, keyword/field flow"
+TECHNIQUE = "call-site, data-flow and path rules over AST/CFG/call graph: engine confinement, sibling-expression comparison with helper/record inlining, context-manager nesting, save/restore pairing, marker path coverage, keyword/field flow, taint of the inserted text, rule-name catalogue from library sources"
 
 META = {
     "explanation": (
-        "Structural necessary conditions of transparent nested parsing. R1: inside render code the markdown-it engine is "
-        "entered only in nested_render_text, on the renderer's own parser (self.md) and with the shared environment "
-        "(self.md_env); md/md_env are bound once from the constructor/setup parameters; _render_tokens is reached only from "
-        "render and nested_render_text (or helpers only they call); the mocks' nested entry points call nested_render_text with the text "
-        "they were given, in the parsing mode (block/inline) of the docutils contract. R2: render_fence and render_colon_fence derive (name, arguments) from token.info by the same "
-        "operations, guard the directive branch by the same test, hand the unmodified token to render_directive, and "
-        "render_directive passes name/arguments/token.content to run_directive under the matching parameters. R3: "
-        "MockState.nested_parse renders beneath its node argument (not appended), MockInliner.parse renders into a fresh "
-        "container and returns its children, include and substitution render in place; current_node_context switches and "
-        "restores. R4: every piece of renderer/document/env state changed around a nested render is restored to the value "
-        "saved before it (nested_render_text._restore; the try/finally of the include mock); the in-progress markers of the "
-        "re-entrant renders (include stack, substitution reference set) are removed on every return/exception path after they "
-        "were inserted, and their keys are not computed relative to state the same function swaps for the nested render (nor "
-        "reduced to a file name). R5: the fields of "
-        "DirectiveParsingResult reach the directive constructor, the include mock and parse_directive_block under the "
-        "matching keyword/position. R6: on every data-flow path from the inserted text (directive content, block handed to "
-        "nested_parse / inliner.parse, text read from the included file, value rendered by the substitution template) to the "
-        "nested parse no character-changing operation (strip family, expandtabs, replace, dedent, escape, re.sub ...) is applied - "
-        "uses whose result is only tested are ignored - and the Jinja environment of substitutions has no autoescape/finalize."
+        "Structural necessary conditions of transparent nested parsing, decided over syntax trees, CFGs and the call graph. "
+        "R1 one engine: inside render code (everything reachable from DocutilsRenderer.render) markdown-it is entered only in "
+        "nested_render_text, on the renderer's own parser (self.md), with the shared environment (self.md_env) and the text "
+        "parameter; the inline flag selects parseInline; no second engine is built and render() is not re-entered; md/md_env "
+        "are bound once from the constructor/setup_render parameters; _render_tokens is reached only from render and "
+        "nested_render_text (or helpers only they call); the mocks' nested entry points hand the text they were given to "
+        "nested_render_text in the parsing mode (block/inline) of the docutils contract. "
+        "R2 sibling fences: render_fence and render_colon_fence derive (name, arguments) from token.info by the same operations "
+        "(locals, tuple unpacking, straight-line helpers, classmethods and NamedTuple/dataclass records are inlined), guard the "
+        "shared `{name}` route by the same test, hand over their own, unmodified token, and render_directive forwards "
+        "name/arguments/token.content to run_directive under the matching parameters. "
+        "R3 node context: MockState.nested_parse renders beneath its node argument (not appended), MockInliner.parse into a "
+        "fresh container whose children it returns, include and substitution in place, the div into a fresh appended container; "
+        "current_node_context appends (under its flag) before switching, switches, and restores the saved node. "
+        "R4 state: every piece of renderer/document/env state changed around a nested render is put back to the value saved "
+        "before it - in the context manager entered around _render_tokens (closure or method; followed through helpers) and in "
+        "the try/finally of the include mock (in run() itself or in a context manager it enters); the in-progress markers of the "
+        "re-entrant renders (include stack, substitution reference set) are removed on every return/exception path after their "
+        "insertion, and their keys are not computed relative to state that the same code swaps for the nested render, nor "
+        "reduced to a file name. "
+        "R5 result fields: the fields of DirectiveParsingResult reach the directive constructor, the include mock and "
+        "parse_directive_block under the matching keyword/position. "
+        "R6 text conservation: on every data-flow path from the inserted text (directive content, block handed to nested_parse / "
+        "inliner.parse, text read for an include, value rendered by the substitution template) to the nested parse no "
+        "character-changing operation (strip family, expandtabs, replace, dedent, escape, re.sub ...) is applied - uses whose "
+        "result is only tested are ignored - and the Jinja environment used for substitutions (built in the function, a helper or "
+        "an instance attribute) has no autoescape/finalize. "
+        "R7 rule lookups: a test '<rule>' in md.get_active_rules()[<chain>] names a rule that markdown-it or a configured plugin "
+        "registers on that chain (catalogue read from the library sources); a rule looked up in the wrong chain is a constant test."
     ),
     "not_decided": (
-        "node-for-node equality of render(W(X)) and render(X) (needs the trees). In particular NOT decided and known to "
-        "fail by construction: reference definitions ([foo]: url) met during a nested parse are registered in md_env after "
-        "markdown-it has finished the inline pass of the outer document, so they are usable only from text nested-parsed "
-        "later, never from top-level text; the option-block syntax makes bodies starting with ':' or '---' ambiguous."
+        "Node-for-node equality of render(W(X)) and render(X) (needs the trees). Known to fail by construction and NOT reported: "
+        "reference definitions ([foo]: url) first met during a nested parse are registered in md_env after markdown-it has "
+        "finished the inline pass of the outer document, so they are usable only from text nested-parsed later, never from "
+        "top-level text. The option-block syntax makes bodies that start with ':' or '---' ambiguous. Not modelled: text "
+        "transformations hidden inside helper functions or third-party directives, slicing that drops characters (it cannot be "
+        "told from the start/end options of include), lossy marker keys other than relpath/relative_to/basename/.name/.stem, "
+        "exceptions raised by statements outside a try (the CFG has exception edges only inside try bodies), `{eval-rst}` being "
+        "dispatched by the back-tick fence only (its body is rST, outside the property's wrappers)."
     ),
-    "trusted_base": ["CPython ast", "engine call graph special edges (directive run -> mock callbacks)", "docutils Directive constructor keyword names"],
+    "trusted_base": [
+        "CPython ast",
+        "engine call graph special edges (directive run -> mock callbacks)",
+        "docutils Directive constructor keyword names and the nested_parse/inliner.parse/parse_directive_block contracts",
+        "markdown-it / mdit-py-plugins sources as installed (rule tables and ruler registrations, parsed not imported)",
+        "tables in the module: character-changing str methods/functions, predicate uses, marker insert/removal methods",
+    ],
     "assumptions": [
         "markdown-it's parse/parseInline register reference definitions and footnotes in the env mapping they are given",
         "third-party directives call state.nested_parse / state.inline_text as docutils documents them",
+        "jinja2 returns the value of `{{ expr }}` unchanged unless autoescape/finalize are configured",
     ],
 }
 
@@ -223,8 +244,21 @@ class _Inliner(ast.NodeTransformer):
             return n.value.elts[n.slice.value]  # (a, b)[0] -> a
         return n
 
+    def visit_Attribute(self, n: ast.Attribute):
+        self.generic_visit(n)
+        fields = getattr(n.value, "_c06_fields", None)
+        if isinstance(n.value, ast.Tuple) and fields and n.attr in fields:
+            return n.value.elts[fields.index(n.attr)]  # Record(a, b).first -> a
+        return n
+
     def visit_Call(self, n: ast.Call):
         self.generic_visit(n)
+        rec = _record_fields(n, self.fi)
+        if rec is not None:
+            fields, vals = rec
+            t = ast.Tuple([vals[f] for f in fields], ast.Load())
+            t._c06_fields = fields  # type: ignore[attr-defined]
+            return t
         h = _simple_helper(n, self.fi)
         if h is not None and self.depth <= 8:
             helper, ret, binding = h
@@ -254,6 +288,30 @@ class _Subst(ast.NodeTransformer):
         return n
 
 
+def _record_fields(call: ast.Call, fi: FunctionInfo):
+    """(field names, {field: value}) when ``call`` constructs a package NamedTuple/dataclass with every field given."""
+    f = call.func
+    if not (isinstance(f, ast.Name) and f.id in fi.module.classes):
+        return None
+    ci = fi.module.classes[f.id]
+    is_record = any(b.split(".")[-1] == "NamedTuple" for b in ci.bases) or any((dotted(d.func if isinstance(d, ast.Call) else d) or "").split(".")[-1] == "dataclass" for d in ci.node.decorator_list)
+    if not is_record or "__new__" in ci.methods or "__init__" in ci.methods:
+        return None
+    fields = [st.target.id for st in ci.node.body if isinstance(st, ast.AnnAssign) and isinstance(st.target, ast.Name)]
+    vals: dict[str, ast.expr] = {}
+    for i, a in enumerate(call.args):
+        if isinstance(a, ast.Starred) or i >= len(fields):
+            return None
+        vals[fields[i]] = a
+    for k in call.keywords:
+        if k.arg is None or k.arg not in fields:
+            return None
+        vals[k.arg] = k.value
+    if set(vals) != set(fields) or not fields:
+        return None
+    return fields, vals
+
+
 def _package_callee(call: ast.Call, fi: FunctionInfo) -> FunctionInfo | None:
     """The single package function a ``self.m(...)`` / ``f(...)`` call resolves to (by name; the call may be a re-parsed copy)."""
     mod = fi.module
@@ -267,6 +325,8 @@ def _package_callee(call: ast.Call, fi: FunctionInfo) -> FunctionInfo | None:
         return None
     if isinstance(f, ast.Name) and f.id in mod.functions:
         return mod.functions[f.id]
+    if isinstance(f, ast.Attribute) and isinstance(f.value, ast.Name) and f.value.id in mod.classes and f.attr in mod.classes[f.value.id].methods:
+        return mod.classes[f.value.id].methods[f.attr]
     return None
 
 
@@ -292,6 +352,8 @@ def _simple_helper(call: ast.Call, fi: FunctionInfo):
         binding[k.arg] = k.value
     if set(names) - set(binding):
         return None  # defaults: not modelled
+    if "classmethod" in helper.decorators() and helper.cls is not None and helper.node.args.args:
+        binding[helper.node.args.args[0].arg] = ast.Name(helper.cls.name, ast.Load())
     ret = _Inliner(helper, body[-1], None).visit(ast.parse(unparse(body[-1].value), mode="eval").body)
     return helper, ret, binding
 
@@ -304,6 +366,8 @@ def _opaque_calls(e: ast.AST | None, fi: FunctionInfo) -> list[str]:
     for n in ast.walk(e):
         if isinstance(n, ast.Call) and _package_callee(n, fi) is not None:
             out.append(unparse(n.func) + "()")
+        elif isinstance(n, ast.Attribute) and isinstance(n.value, ast.Tuple):
+            out.append(f"<record>.{n.attr}()")  # a property/method of a record that was not inlined
         elif isinstance(n, ast.Name) and n.id not in ("TOKEN", "self") and n.id not in fi.params and _local_defs(fi, n.id):
             out.append(n.id)
     return out
@@ -365,6 +429,32 @@ def _render_code(corpus: Corpus) -> dict:
 # R1 one engine
 
 
+def _owner_class(fi: FunctionInfo):
+    f = fi
+    while f is not None and f.cls is None:
+        f = f.parent_func
+    return f.cls if f is not None else None
+
+
+def _self_attr_values(fi: FunctionInfo, attr: str, corpus: Corpus) -> list[ast.expr]:
+    """Every value the class of ``fi`` (and its package bases/subclasses) binds to ``self.<attr>``."""
+    ci = _owner_class(fi)
+    if ci is None:
+        return []
+    out = []
+    for c in {x.fq: x for x in corpus.mro(ci) + corpus.subclasses(ci)}.values():
+        for m in c.methods.values():
+            for n in m.local_nodes():
+                tgt = val = None
+                if isinstance(n, ast.Assign) and len(n.targets) == 1:
+                    tgt, val = n.targets[0], n.value
+                elif isinstance(n, ast.AnnAssign) and n.value is not None:
+                    tgt, val = n.target, n.value
+                if isinstance(tgt, ast.Attribute) and isinstance(tgt.value, ast.Name) and tgt.value.id == "self" and tgt.attr == attr:
+                    out.append(val)
+    return out
+
+
 def _receiver_kind(call: ast.Call, fi: FunctionInfo, corpus: Corpus) -> tuple[str, str]:
     """Classify the receiver of ``recv.parse/parseInline/render/renderInline(...)``.
 
@@ -393,7 +483,12 @@ def _receiver_kind(call: ast.Call, fi: FunctionInfo, corpus: Corpus) -> tuple[st
                     return "markdown-it", f"parameter {x.arg}: MarkdownIt"
         f = f.parent_func
 
-    def origin(n: ast.AST) -> str | None:
+    def origin(n: ast.AST, depth: int = 0) -> str | None:
+        if isinstance(n, ast.Attribute) and isinstance(n.value, ast.Name) and n.value.id == "self" and n.attr != "md" and depth < 3:
+            # self.<attr>: classified by what the class binds to it
+            kinds_ = {origin(x, depth + 1) for v in _self_attr_values(fi, n.attr, corpus) for x in ast.walk(v)} - {None}
+            if len(kinds_) == 1:
+                return kinds_.pop()
         if isinstance(n, ast.Call):
             full = fi.module.resolve(dotted(n.func) or "")
             if full.endswith("parsers.mdit.create_md_parser") or full in ("markdown_it.MarkdownIt", "markdown_it.main.MarkdownIt"):
@@ -676,13 +771,20 @@ def _fence_facts(fi: FunctionInfo, rd: FunctionInfo, corpus: Corpus) -> dict:
     # the `{name}` route: the directive name argument is a slice of the info word (braces stripped)
     brace = []
     other = []
-    for c in calls:
-        m = _callee_param_index(rd, c)
+    calls = [(c, _callee_param_index(rd, c)) for c in calls]
+    for c, m in calls:
         nm = m.get(1)
         sliced = nm is not None and any(isinstance(x, ast.Subscript) and isinstance(x.slice, ast.Slice) for x in ast.walk(nm))
         (brace if sliced else other).append((c, m))
     if len(brace) != 1:
-        raise Unsupported(f"{fi.qualname}: expected exactly one render_directive(token, name[1:-1], arguments) call, found {len(brace)}")
+        # no brace-stripping slice at the call (it may live in a helper/property): the `{name}` route is then the
+        # call that binds only (token, name, arguments) - the route both fence kinds share
+        plain = [(c, m) for c, m in calls for keys in [set(m)] if keys <= {0, 1, 2}]
+        if len(plain) == 1:
+            brace = plain
+            other = [(c, m) for c, m in calls if (c, m) not in plain]
+        else:
+            raise Unsupported(f"{fi.qualname}: expected exactly one render_directive(token, <name>, <arguments>) call of the shared route, found {len(plain)}")
     call, m = brace[0]
     st = cfg.stmt_of(call)
     name_e = _inlined(m[1], fi, st, tok)
@@ -1022,6 +1124,25 @@ def _state_key(e: ast.AST | None) -> str | None:
     return None
 
 
+def _cm_functions_around(call: ast.AST, fi: FunctionInfo, corpus: Corpus) -> list[tuple[FunctionInfo, ast.Call]]:
+    """Package ``@contextmanager`` generators entered by a ``with`` that encloses ``call`` (innermost first):
+    nested functions, methods (``self.m(...)``) and module functions alike."""
+    g = get_callgraph(corpus)
+    out = []
+    for a in ancestors(call):
+        if isinstance(a, (ast.FunctionDef, ast.AsyncFunctionDef, ast.Lambda)):
+            break
+        if isinstance(a, ast.With):
+            for item in reversed(a.items):
+                ce = item.context_expr
+                if not isinstance(ce, ast.Call):
+                    continue
+                for t in g.flat_targets(g.resolve_call(ce, fi)):
+                    if not t.is_lambda and t.is_generator() and "contextmanager" in " ".join(t.decorators()):
+                        out.append((t, ce))
+    return out
+
+
 def _guard_sig(cfg, st) -> list[str]:
     return sorted(f"{'' if pol else 'not '}{unparse(t)}" for t, pol in cfg.guards(st))
 
@@ -1031,14 +1152,67 @@ def r4_state_restored(corpus: Corpus, rep: Report, tier: str):
     rep.rule("C06.R4", "state changed around a nested render (heading offset, level map, temp root, document source, reporter, md_env keys) is restored to the value saved before it; in-progress markers are removed on every exit and keyed depth-independently")
     base = corpus.mod("mdit_to_docutils.base")
     nrt = corpus.func(f"{RENDERER}.nested_render_text")
-    inner = [f for f in base.functions.values() if f.parent_func == nrt and not f.is_lambda and f.is_generator()]
-    if len(inner) != 1:
-        raise Unsupported(f"nested_render_text: expected one generator context manager, found {len(inner)}")
-    rs = inner[0]
+    g = get_callgraph(corpus)
+    rtok = corpus.func(f"{RENDERER}._render_tokens")
+
+    def reaches_rtok(c: ast.Call) -> bool:
+        for t in g.flat_targets(g.resolve_call(c, nrt)):
+            if t.fq == rtok.fq or (t.fq != nrt.fq and rtok.fq in g.reachable([t], stop=lambda f: f.fq in (rtok.fq, nrt.fq))):
+                return True
+        return False
+
+    rt_calls = [c for c in _fn_calls(nrt) if reaches_rtok(c)]
+    if not rt_calls:
+        raise Unsupported("nested_render_text: no call reaching _render_tokens")
+    cms: dict[str, FunctionInfo] = {}
+    unprotected = []
+    unknown_cm: list[ast.Call] = []
+
+    def collect(c: ast.Call, f: FunctionInfo, depth: int) -> None:
+        around = [t for t, _ in _cm_functions_around(c, f, corpus) if any(_state_key(a.targets[0]) for a in t.local_nodes() if isinstance(a, ast.Assign) and len(a.targets) == 1)]
+        for t in around:
+            cms[t.fq] = t
+        if around:
+            return
+        # the with-block may have moved into the helper that is called here
+        helpers = [t for t in g.flat_targets(g.resolve_call(c, f)) if t.fq not in (rtok.fq, nrt.fq)]
+        inner_calls = [(c2, h) for h in helpers for c2 in _fn_calls(h) if any(t.fq == rtok.fq or rtok.fq in g.reachable([t], stop=lambda x: x.fq in (rtok.fq, nrt.fq)) for t in g.flat_targets(g.resolve_call(c2, h)))]
+        if depth < 2 and inner_calls:
+            for c2, h in inner_calls:
+                collect(c2, h, depth + 1)
+        elif any(
+            isinstance(a, ast.With) and any(isinstance(i.context_expr, ast.Call) and not g.flat_targets(g.resolve_call(i.context_expr, f)) and not (dotted(i.context_expr.func) or "").split(".")[-1] in ("suppress", "open", "current_node_context") for i in a.items)
+            for a in ancestors(c)
+        ):
+            unknown_cm.append(c)
+        else:
+            unprotected.append(c)
+
+    for c in rt_calls:
+        collect(c, nrt, 0)
+    k = f"{nrt.fq}|_render_tokens runs inside the restoring context"
+    if unknown_cm and not unprotected:
+        rep.error("C06.R4", f"{nrt.module.site(unknown_cm[0])}: the context manager entered around the nested render could not be resolved to a package function")
+    elif unprotected or not cms:
+        rep.violation("C06.R4", k, nrt.site(), "the nested tokens are rendered outside a state-restoring context manager: heading offset / level map / temp root leak into the rest of the document")
+    else:
+        rep.ok("C06.R4", k, nrt.module.site(rt_calls[0]), ", ".join(sorted(t.qualname for t in cms.values())))
+    if len(cms) > 1:
+        raise Unsupported(f"nested_render_text: {len(cms)} restoring context managers around the render call")
+    if cms:
+        _r4_restore_pairs(rep, next(iter(cms.values())))
+
+    _r4_markers(corpus, rep)
+    _r4_include(corpus, rep)
+    rep.expect_min("C06.R4", 10, "three _restore pairs, the with-block, five swaps in the include mock, marker removal/key frame for include and substitution")
+
+
+def _r4_restore_pairs(rep: Report, rs: FunctionInfo) -> None:
+    """Save / set / yield / restore pairing inside the context manager of nested_render_text."""
     cfg = get_cfg(rs)
     ys = [n for n in rs.local_nodes() if isinstance(n, ast.Yield)]
     if len(ys) != 1:
-        raise Unsupported("_restore: expected one yield")
+        raise Unsupported(f"{rs.qualname}: expected one yield")
     yst = cfg.stmt_of(ys[0])
     after_set = cfg.reachable_from(yst)
     assigns = [n for n in rs.local_nodes() if isinstance(n, ast.Assign) and len(n.targets) == 1]
@@ -1050,7 +1224,7 @@ def r4_state_restored(corpus: Corpus, rep: Report, tier: str):
     for a in pre + post:
         t = a.targets[0]
         if not isinstance(t, ast.Name) and _state_key(t) is None:
-            rep.error("C06.R4", f"{rs.module.site(a)}: store `{short(a, 60)}` in _restore not understood")
+            rep.error("C06.R4", f"{rs.module.site(a)}: store `{short(a, 60)}` in {rs.qualname} not understood")
 
     def restore_for(key: str, guard_of) -> tuple[bool, str]:
         for rk, ra in restores:
@@ -1084,43 +1258,36 @@ def r4_state_restored(corpus: Corpus, rep: Report, tier: str):
             rep.ok("C06.R4", k, rs.module.site(sa), why)
         else:
             rep.violation("C06.R4", k, rs.module.site(sa), f"{key} is saved in `{name}` (the nested render mutates it) but never put back: {why}")
-    # _render_tokens runs inside `with _restore()`
-    k = f"{nrt.fq}|_render_tokens runs inside the restoring context"
-    g = get_callgraph(corpus)
-    rtok = corpus.func(f"{RENDERER}._render_tokens")
 
-    def reaches_rtok(c: ast.Call) -> bool:
-        for t in g.flat_targets(g.resolve_call(c, nrt)):
-            if t.fq == rtok.fq or (t.fq != nrt.fq and rtok.fq in g.reachable([t], stop=lambda f: f.fq in (rtok.fq, nrt.fq))):
-                return True
-        return False
 
-    rt_calls = [c for c in _fn_calls(nrt) if reaches_rtok(c)]
-    inside = bool(rt_calls)
-    for c in rt_calls:
-        if not any(isinstance(a, ast.With) and any(isinstance(i.context_expr, ast.Call) and dotted(i.context_expr.func) == rs.name for i in a.items) for a in ancestors(c)):
-            inside = False
-    if rt_calls and inside and "contextmanager" in " ".join(rs.decorators()):
-        rep.ok("C06.R4", k, nrt.module.site(rt_calls[0]))
-    else:
-        rep.violation("C06.R4", k, nrt.site(), "the nested tokens are rendered outside `with _restore()` (or _restore is not a context manager): heading offset / level map / temp root leak into the rest of the document")
-
-    _r4_markers(corpus, rep)
-
+def _r4_include(corpus: Corpus, rep: Report) -> None:
     # the include mock: try/finally around the nested render
     inc = corpus.func("mocking:MockIncludeDirective.run")
     calls = [c for c in _fn_calls(inc) if isinstance(c.func, ast.Attribute) and c.func.attr == "nested_render_text"]
     if len(calls) != 1:
         raise Unsupported(f"include mock: expected one nested_render_text call, found {len(calls)}")
     tr = None
+    owner = inc
     for a in ancestors(calls[0]):
         if isinstance(a, ast.Try) and a.finalbody:
             tr = a
             break
     if tr is None:
+        # the save/restore pair may live in a context manager entered around the call
+        for cm, _ce in _cm_functions_around(calls[0], inc, corpus):
+            for y in (n for n in cm.local_nodes() if isinstance(n, ast.Yield)):
+                for a in ancestors(y):
+                    if isinstance(a, ast.Try) and a.finalbody and any(y in ast.walk(b_) for b_ in a.body):
+                        tr, owner = a, cm
+                        break
+                if tr is not None:
+                    break
+            if tr is not None:
+                break
+    if tr is None:
         rep.violation("C06.R4", f"{inc.fq}|nested render inside try/finally", inc.module.site(calls[0]), "the include's nested render is not protected by a finally that restores document source / reporter / md_env")
         return
-    icfg = get_cfg(inc)
+    icfg = get_cfg(owner)
     fin_nodes = [n for s in tr.finalbody for n in ast.walk(s)]
     body_assigns = [n for s in tr.body for n in ast.walk(s) if isinstance(n, ast.Assign)]
     n_w = 0
@@ -1129,22 +1296,22 @@ def r4_state_restored(corpus: Corpus, rep: Report, tier: str):
             key = _state_key(t)
             if key is None:
                 if isinstance(t, (ast.Attribute, ast.Subscript)):
-                    rep.error("C06.R4", f"{inc.module.site(a)}: store `{short(a, 60)}` inside the include's try not understood")
+                    rep.error("C06.R4", f"{owner.module.site(a)}: store `{short(a, 60)}` inside the include's try not understood")
                 continue
             n_w += 1
             k = f"{inc.fq}|{key} changed for the included file -> restored in finally"
-            site = inc.module.site(a)
+            site = owner.module.site(a)
             restored = None
             for n in fin_nodes:
                 if isinstance(n, ast.Assign) and any(_state_key(x) == key for x in n.targets) and isinstance(n.value, ast.Name):
-                    defs = _local_defs(inc, n.value.id)
+                    defs = _local_defs(owner, n.value.id)
                     if len(defs) == 1 and _state_key(defs[0][1]) == key and icfg.dominates(defs[0][0], tr):
                         restored = n
             if restored is None and key.endswith("]") and "[" in key:
                 cont = key[: key.rindex("[")]
                 for n in fin_nodes:
                     if isinstance(n, ast.Assign) and any(_state_key(x) == cont for x in n.targets) and isinstance(n.value, ast.Name):
-                        defs = _local_defs(inc, n.value.id)
+                        defs = _local_defs(owner, n.value.id)
                         if len(defs) == 1 and _state_key(defs[0][1]) == cont and unparse(defs[0][1]) == cont and icfg.dominates(defs[0][0], tr):
                             restored = n  # the mapping itself is swapped for the include and put back
             removed = None
@@ -1165,7 +1332,7 @@ def r4_state_restored(corpus: Corpus, rep: Report, tier: str):
                 continue
             k = k.replace(" -> restored in finally", " -> removed, not restored, in finally" if removed is not None else " -> not restored in finally")
             if unknown is not None:
-                rep.error("C06.R4", f"{inc.module.site(unknown)}: `{short(unknown, 60)}` in the include's finally may restore {key}: idiom not understood")
+                rep.error("C06.R4", f"{owner.module.site(unknown)}: `{short(unknown, 60)}` in the include's finally may restore {key}: idiom not understood")
             elif removed is not None:
                 rep.violation(
                     "C06.R4",
@@ -1178,7 +1345,6 @@ def r4_state_restored(corpus: Corpus, rep: Report, tier: str):
                 rep.violation("C06.R4", k, site, f"{key} is changed for the included file and not restored in finally: everything after the include is rendered with the included file's value")
     if n_w < 3:
         rep.error("C06.R4", f"include mock: expected the source/reporter/md_env swaps inside the try, found {n_w} store(s)")
-    rep.expect_min("C06.R4", 10, "three _restore pairs, the with-block, five swaps in the include mock, marker removal/key frame for include and substitution")
 
 
 MARKER_INSERTS = {"add", "update", "append", "extend", "insert", "appendleft"}
@@ -1240,82 +1406,105 @@ def _def_closure(exprs: list[ast.AST], fi: FunctionInfo) -> list[ast.AST]:
 
 def _r4_markers(corpus: Corpus, rep: Report) -> None:
     """In-progress markers (cycle guards of re-entrant nested renders): removed on every exit, keyed in a frame
-    that does not change with the nesting depth."""
+    that does not change with the nesting depth.  The caller of nested_render_text and the context managers it
+    enters around that call are analysed together."""
     g = get_callgraph(corpus)
     nrt = corpus.func(f"{RENDERER}.nested_render_text")
     n_markers = 0
     for fi in sorted({f for f, _ in g.callers().get(nrt.fq, [])}, key=lambda f: f.fq):
         if fi.is_lambda:
             continue
-        nodes_ = fi.local_nodes()
-        dr = lambda e, fi=fi: _deref(e, fi) if isinstance(e, ast.Name) else e  # simple local aliases of the collection
-        tested: dict[str, list[ast.AST]] = {}  # collection text -> tested key expressions
-        for n in nodes_:
-            if isinstance(n, ast.Compare) and any(isinstance(o, (ast.In, ast.NotIn)) for o in n.ops):
-                for c in n.comparators:
-                    if _doc_scoped(dr(c)):
-                        tested.setdefault(unparse(dr(c)), []).append(n.left)
-            elif isinstance(n, ast.Call) and isinstance(n.func, ast.Attribute) and n.func.attr in ("intersection", "isdisjoint", "issubset", "issuperset"):
-                both = [n.func.value] + list(n.args)
-                for x in both:
-                    if _doc_scoped(dr(x)):
-                        tested.setdefault(unparse(dr(x)), []).extend(y for y in both if y is not x)
-            elif isinstance(n, ast.BinOp) and isinstance(n.op, ast.BitAnd):
-                for x, y in ((n.left, n.right), (n.right, n.left)):
-                    if _doc_scoped(dr(x)):
-                        tested.setdefault(unparse(dr(x)), []).append(y)
+        group: list[FunctionInfo] = [fi]
+        cm_calls: list[tuple[FunctionInfo, ast.Call]] = []
+        for f2, call in g.callers().get(nrt.fq, []):
+            if f2.fq == fi.fq:
+                for cm, ce in _cm_functions_around(call, fi, corpus):
+                    if cm.fq not in {x.fq for x in group}:
+                        group.append(cm)
+                        cm_calls.append((cm, ce))
+        tested: dict[str, list[tuple[ast.AST, FunctionInfo]]] = {}  # collection text -> tested key expressions
+        for f in group:
+            dr = lambda e, f=f: _deref(e, f) if isinstance(e, ast.Name) else e  # simple local aliases of the collection
+            for n in f.local_nodes():
+                if isinstance(n, ast.Compare) and any(isinstance(o, (ast.In, ast.NotIn)) for o in n.ops):
+                    for c in n.comparators:
+                        if _doc_scoped(dr(c)):
+                            tested.setdefault(unparse(dr(c)), []).append((n.left, f))
+                elif isinstance(n, ast.Call) and isinstance(n.func, ast.Attribute) and n.func.attr in ("intersection", "isdisjoint", "issubset", "issuperset"):
+                    both = [n.func.value] + list(n.args)
+                    for x in both:
+                        if _doc_scoped(dr(x)):
+                            tested.setdefault(unparse(dr(x)), []).extend((y, f) for y in both if y is not x)
+                elif isinstance(n, ast.BinOp) and isinstance(n.op, ast.BitAnd):
+                    for x, y in ((n.left, n.right), (n.right, n.left)):
+                        if _doc_scoped(dr(x)):
+                            tested.setdefault(unparse(dr(x)), []).append((y, f))
         if not tested:
             continue
-        cfg = get_cfg(fi)
-        swapped = {_alias_norm(_state_key(t), fi) for n in nodes_ if isinstance(n, ast.Assign) for t in n.targets if _state_key(t)}
+        swapped = {_alias_norm(_state_key(t), f) for f in group for n in f.local_nodes() if isinstance(n, ast.Assign) for t in n.targets if _state_key(t)}
         for coll, keys in sorted(tested.items()):
-            inserts = [n for n in nodes_ if isinstance(n, ast.Call) and isinstance(n.func, ast.Attribute) and n.func.attr in MARKER_INSERTS and unparse(dr(n.func.value)) == coll]
-            removals = {cfg.stmt_of(n) for n in nodes_ if isinstance(n, ast.Call) and isinstance(n.func, ast.Attribute) and n.func.attr in MARKER_REMOVALS and unparse(dr(n.func.value)) == coll}
+            inserts: list[tuple[ast.Call, FunctionInfo]] = []
+            for f in group:
+                dr = lambda e, f=f: _deref(e, f) if isinstance(e, ast.Name) else e
+                inserts += [(n, f) for n in f.local_nodes() if isinstance(n, ast.Call) and isinstance(n.func, ast.Attribute) and n.func.attr in MARKER_INSERTS and unparse(dr(n.func.value)) == coll]
             if not inserts:
                 continue
             n_markers += 1
-            for ins in inserts:
+            for ins, f in inserts:
+                cfg = get_cfg(f)
+                dr = lambda e, f=f: _deref(e, f) if isinstance(e, ast.Name) else e
+                removals = {cfg.stmt_of(n) for n in f.local_nodes() if isinstance(n, ast.Call) and isinstance(n.func, ast.Attribute) and n.func.attr in MARKER_REMOVALS and unparse(dr(n.func.value)) == coll}
                 st = cfg.stmt_of(ins)
                 k = f"{fi.fq}|{coll}: in-progress marker removed on every exit"
                 leaks = [t for t in ("EXIT", "RAISE") if cfg.paths_avoiding(st, t, lambda n: n in removals)]
                 if not removals:
-                    rep.violation("C06.R4", k, fi.module.site(ins), f"`{short(ins, 60)}` marks the key as being rendered and nothing in {fi.qualname} removes it again: every later use of the same key is refused as circular")
+                    rep.violation("C06.R4", k, f.module.site(ins), f"`{short(ins, 60)}` marks the key as being rendered and nothing in {f.qualname} removes it again: every later use of the same key is refused as circular")
                 elif leaks:
                     how = " and ".join("a return" if t == "EXIT" else "an exception" for t in leaks)
                     rep.violation(
                         "C06.R4",
                         k,
-                        fi.module.site(ins),
-                        f"after `{short(ins, 60)}` {how} can leave {fi.qualname} without passing {', '.join(sorted({short(r, 50) for r in removals}))}: "
+                        f.module.site(ins),
+                        f"after `{short(ins, 60)}` {how} can leave {f.qualname} without passing {', '.join(sorted({short(r, 50) for r in removals}))}: "
                         "the key stays marked as in progress, so every later substitution/inclusion of it is refused as circular and yields no nodes",
                     )
                 else:
-                    rep.ok("C06.R4", k, fi.module.site(ins), f"every path passes {', '.join(sorted({short(r, 40) for r in removals}))}")
+                    rep.ok("C06.R4", k, f.module.site(ins), f"every path passes {', '.join(sorted({short(r, 40) for r in removals}))}")
             # the key frame
             k = f"{fi.fq}|{coll}: key does not depend on state swapped for the nested render"
-            key_exprs = list(keys) + [a for ins in inserts for a in ins.args]
+            key_exprs: list[tuple[ast.AST, FunctionInfo]] = list(keys) + [(a, f) for ins, f in inserts for a in ins.args]
+            # a key that is a parameter of the context manager is the argument at the with-statement
+            for cm, ce in cm_calls:
+                m = _callee_param_index(cm, ce)
+                pn = _pos_params(cm)
+                for e, f in list(key_exprs):
+                    if f.fq == cm.fq:
+                        for nm in _names_in(e):
+                            if nm in pn and m.get(pn.index(nm)) is not None:
+                                key_exprs.append((m[pn.index(nm)], fi))
             bad = []
-            for e in _def_closure(key_exprs, fi):
-                for n in ast.walk(e):
-                    if isinstance(n, ast.Call) and (dotted(n.func) or "").split(".")[-1] in RELATIVISING or (isinstance(n, ast.Call) and isinstance(n.func, ast.Attribute) and n.func.attr in RELATIVISING):
-                        last = n.func.attr if isinstance(n.func, ast.Attribute) else dotted(n.func)
-                        basearg = (n.args[1] if len(n.args) > 1 else kwarg(n, "start")) if last == "relpath" else (n.args[0] if n.args else None)
-                        if basearg is None:
-                            continue
-                        reads = {_alias_norm(_state_key(x), fi) for b in _def_closure([basearg], fi) for x in ast.walk(b) if _state_key(x)}
-                        hit = sorted(r for r in reads if any(r == s_ or r.startswith(s_ + "[") or s_.startswith(r + "[") for s_ in swapped))
-                        exact = [r for r in hit if r in swapped]
-                        hit = exact or hit
-                        if hit:
-                            bad.append((n, f"`{short(n, 60)}` makes the key relative to a base derived from {', '.join(hit)}, which {fi.qualname} itself swaps for the nested render: keys pushed at different nesting depths live in different frames and collide (spurious 'circular' refusals) or fail to match"))
-                    if isinstance(n, ast.Call) and (dotted(n.func) or "").split(".")[-1] == "basename":
-                        bad.append((n, f"`{short(n, 60)}` keeps only the last path component: different files share a key"))
-                    if isinstance(n, ast.Attribute) and n.attr in ("name", "stem") and isinstance(n.value, ast.Name) and n.value.id != "self" and _is_pathlike(n.value, fi):
-                        bad.append((n, f"`{short(n, 40)}` keeps only the file name: different files share a key"))
+            for e0, f in key_exprs:
+                for e in _def_closure([e0], f):
+                    for n in ast.walk(e):
+                        if isinstance(n, ast.Call) and ((dotted(n.func) or "").split(".")[-1] in RELATIVISING or (isinstance(n.func, ast.Attribute) and n.func.attr in RELATIVISING)):
+                            last = n.func.attr if isinstance(n.func, ast.Attribute) else dotted(n.func)
+                            basearg = (n.args[1] if len(n.args) > 1 else kwarg(n, "start")) if last == "relpath" else (n.args[0] if n.args else None)
+                            if basearg is None:
+                                continue
+                            reads = {_alias_norm(_state_key(x), f) for b in _def_closure([basearg], f) for x in ast.walk(b) if _state_key(x)}
+                            hit = sorted(r for r in reads if any(r == s_ or r.startswith(s_ + "[") or s_.startswith(r + "[") for s_ in swapped))
+                            exact = [r for r in hit if r in swapped]
+                            hit = exact or hit
+                            if hit:
+                                bad.append((n, f, f"`{short(n, 60)}` makes the key relative to a base derived from {', '.join(hit)}, which {fi.qualname} itself swaps for the nested render: keys pushed at different nesting depths live in different frames and collide (spurious 'circular' refusals) or fail to match"))
+                        if isinstance(n, ast.Call) and (dotted(n.func) or "").split(".")[-1] == "basename":
+                            bad.append((n, f, f"`{short(n, 60)}` keeps only the last path component: different files share a key"))
+                        if isinstance(n, ast.Attribute) and n.attr in ("name", "stem") and isinstance(n.value, ast.Name) and n.value.id != "self" and _is_pathlike(n.value, f):
+                            bad.append((n, f, f"`{short(n, 40)}` keeps only the file name: different files share a key"))
             if bad:
-                rep.violation("C06.R4", k, fi.module.site(bad[0][0]), bad[0][1])
+                rep.violation("C06.R4", k, bad[0][1].module.site(bad[0][0]), bad[0][2])
             else:
-                rep.ok("C06.R4", k, fi.module.site(inserts[0]))
+                rep.ok("C06.R4", k, inserts[0][1].module.site(inserts[0][0]))
     if n_markers < 2:
         rep.error("C06.R4", f"expected the include stack and the substitution reference set as in-progress markers, found {n_markers}")
 
@@ -1749,10 +1938,27 @@ def r6_text_conserved(corpus: Corpus, rep: Report, tier: str):
         if any(is_tmpl(x) for x in ast.walk(val)):
             seeds |= names
     _text_conserved(rep, sub, seeds, nrt_text_args(sub), "the substitution's value", "the nested parse", source_pred=is_tmpl)
-    envs = [c for c in _fn_calls(sub) if sub.module.resolve(dotted(c.func) or "") in ("jinja2.Environment", "jinja2.environment.Environment", "jinja2.sandbox.SandboxedEnvironment", "jinja2.sandbox.ImmutableSandboxedEnvironment")]
+    ENV_CLASSES = ("jinja2.Environment", "jinja2.environment.Environment", "jinja2.sandbox.SandboxedEnvironment", "jinja2.sandbox.ImmutableSandboxedEnvironment")
+    is_env = lambda c, f: isinstance(c, ast.Call) and f.module.resolve(dotted(c.func) or "") in ENV_CLASSES
+    # the function itself, the package helpers it calls (two levels), and instance attributes they read
+    scope = {sub.fq: sub}
+    for _ in range(2):
+        for f in list(scope.values()):
+            for c, targets in g.callees(f):
+                for t in g.flat_targets(targets):
+                    if t.cls is not None and _owner_class(sub) is not None and any(t.cls.fq == x.fq for x in corpus.mro(_owner_class(sub)) + corpus.subclasses(_owner_class(sub))) and not t.name.startswith("render_") and t.name not in ("create_warning", "nested_render_text"):
+                        scope.setdefault(t.fq, t)
+    envs: list[tuple[ast.Call, FunctionInfo]] = []
+    for f in scope.values():
+        envs += [(c, f) for c in _fn_calls(f) if is_env(c, f)]
+        for n in f.local_nodes():
+            if isinstance(n, ast.Attribute) and isinstance(n.value, ast.Name) and n.value.id == "self" and isinstance(n.ctx, ast.Load):
+                for v in _self_attr_values(f, n.attr, corpus):
+                    envs += [(c, f) for c in ast.walk(v) if is_env(c, f)]
+    envs = list({id(c): (c, f) for c, f in envs}.values())
     if not envs:
-        raise Unsupported("render_substitution: the jinja2 Environment construction was not found")
-    for c in envs:
+        raise Unsupported("render_substitution: the jinja2 Environment construction was not found (looked in the function, its helpers and the instance attributes they read)")
+    for c, envf in envs:
         k = f"{sub.fq}|template engine returns the value untransformed"
         bad = []
         for kw in c.keywords:
@@ -1765,9 +1971,9 @@ def r6_text_conserved(corpus: Corpus, rep: Report, tier: str):
         if len(c.args) > 0:
             raise Unsupported("render_substitution: positional Environment arguments")
         if bad:
-            rep.violation("C06.R6", k, sub.module.site(c), "; ".join(bad) + ": the text that is nested-parsed is not the text of the substitution (code spans, code blocks and HTML blocks show entities / lose their markup)")
+            rep.violation("C06.R6", k, envf.module.site(c), "; ".join(bad) + ": the text that is nested-parsed is not the text of the substitution (code spans, code blocks and HTML blocks show entities / lose their markup)")
         else:
-            rep.ok("C06.R6", k, sub.module.site(c), "no autoescape / finalize")
+            rep.ok("C06.R6", k, envf.module.site(c), "no autoescape / finalize")
     # 7. div content, 8. nested_render_text itself
     cf = corpus.func(f"{RENDERER}.render_colon_fence")
     _text_conserved(rep, cf, {_pos_params(cf)[0]}, nrt_text_args(cf), "the fence content", "the nested parse")
@@ -1776,7 +1982,98 @@ def r6_text_conserved(corpus: Corpus, rep: Report, tier: str):
     rep.expect_min("C06.R6", 10, "nine text paths and the template environment")
 
 
-RULES = [r1_one_engine, r2_sibling_fences, r3_node_context, r4_state_restored, r5_result_fields, r6_text_conserved]
+# ---------------------------------------------------------------------------
+# R7 syntax-rule lookups name a rule of the chain they look in
+
+CHAINS = ("core", "block", "inline", "inline2")
+
+
+def _rule_catalogue(corpus: Corpus, rep: Report) -> dict[str, set[str]]:
+    """chain -> rule names, read from markdown-it's rule tables and from the ``ruler.before/after/push/at``
+    registrations of the plugin modules that parsers/mdit.py imports (sources parsed, never imported)."""
+    cat: dict[str, set[str]] = {c: set() for c in CHAINS}
+    for rel, table, chain in (
+        ("markdown_it/parser_core.py", "_rules", "core"),
+        ("markdown_it/parser_block.py", "_rules", "block"),
+        ("markdown_it/parser_inline.py", "_rules", "inline"),
+        ("markdown_it/parser_inline.py", "_rules2", "inline2"),
+    ):
+        m = corpus.sibling(rel)
+        rep.saw_sibling(rel)
+        node = m.const_nodes.get(table)
+        if not isinstance(node, (ast.List, ast.Tuple)):
+            raise Unsupported(f"{rel}: rule table {table} not found")
+        for e in node.elts:
+            if isinstance(e, (ast.Tuple, ast.List)) and e.elts and isinstance(e.elts[0], ast.Constant) and isinstance(e.elts[0].value, str):
+                cat[chain].add(e.elts[0].value)
+    mdit = corpus.mod("parsers.mdit")
+    mods = sorted({v.rsplit(".", 1)[0] for v in mdit.imports.values() if v.startswith("mdit_py_plugins.")})
+    for dm in mods:
+        for cand in (dm, dm + ".index"):
+            sm = corpus.sibling_module(cand)
+            if sm is None:
+                continue
+            rep.saw_sibling(sm.rel)
+            for n in ast.walk(sm.tree):
+                if not (isinstance(n, ast.Call) and isinstance(n.func, ast.Attribute) and n.func.attr in ("before", "after", "push", "at")):
+                    continue
+                d = dotted(n.func.value) or ""
+                parts = d.split(".")
+                if len(parts) < 2 or parts[-1] not in ("ruler", "ruler2") or parts[-2] not in ("core", "block", "inline"):
+                    continue
+                chain = "inline2" if parts[-1] == "ruler2" else parts[-2]
+                idx = 1 if n.func.attr in ("before", "after") else 0
+                if len(n.args) > idx and isinstance(n.args[idx], ast.Constant) and isinstance(n.args[idx].value, str):
+                    cat[chain].add(n.args[idx].value)
+    return cat
+
+
+@rule("C06.R7")
+def r7_rule_lookups(corpus: Corpus, rep: Report, tier: str):
+    rep.rule("C06.R7", "a test '<rule>' in md.get_active_rules()[<chain>] names a rule that markdown-it / the configured plugins register on that chain (a rule looked up in the wrong chain is a constant-false test)")
+    cat = _rule_catalogue(corpus, rep)
+    sane = {"fence", "paragraph"} <= cat["block"] and "colon_fence" in cat["block"] and {"text", "backticks"} <= cat["inline"] and "inline" in cat["core"] and "emphasis" in cat["inline2"]
+    if not sane:
+        raise Unsupported(f"rule catalogue not understood (block={len(cat['block'])}, inline={len(cat['inline'])}, core={len(cat['core'])}, inline2={len(cat['inline2'])})")
+    rep.ok("C06.R7", "catalogue|markdown-it + plugin rule names per chain", "markdown_it/parser_block.py", ", ".join(f"{c}:{len(cat[c])}" for c in CHAINS))
+    for fi in corpus.all_functions():
+        nodes_ = fi.local_nodes() if not fi.is_lambda else list(ast.walk(fi.node.body))
+        for n in nodes_:
+            if not (isinstance(n, ast.Compare) and len(n.ops) == 1 and isinstance(n.ops[0], (ast.In, ast.NotIn))):
+                continue
+            right = n.comparators[0]
+            right = _deref(right, fi) if isinstance(right, ast.Name) and not fi.is_lambda else right
+            if not isinstance(right, ast.Subscript):
+                continue
+            basev = _deref(right.value, fi) if isinstance(right.value, ast.Name) and not fi.is_lambda else right.value
+            if not (isinstance(basev, ast.Call) and isinstance(basev.func, ast.Attribute) and basev.func.attr in ("get_active_rules", "get_all_rules")):
+                continue
+            site = fi.module.site(n)
+            rep.saw_call(site)
+            chain = right.slice.value if isinstance(right.slice, ast.Constant) else None
+            name = n.left.value if isinstance(n.left, ast.Constant) else None
+            k = f"{fi.fq}|{short(n, 90)}"
+            if not isinstance(chain, str) or not isinstance(name, str):
+                rep.listed("C06.R7", k, site, "rule name or chain is not a constant")
+            elif chain not in cat:
+                rep.violation("C06.R7", k, site, f"{basev.func.attr}() has no chain {chain!r} (chains: {', '.join(CHAINS)}): the lookup raises KeyError")
+            elif name in cat[chain]:
+                rep.ok("C06.R7", k, site, f"{name} is a {chain} rule")
+            else:
+                homes = [c for c in CHAINS if name in cat[c]]
+                if homes:
+                    rep.violation(
+                        "C06.R7",
+                        k,
+                        site,
+                        f"{name!r} is a {'/'.join(homes)} rule, it is never in the {chain!r} chain: the test is constantly {'False' if isinstance(n.ops[0], ast.In) else 'True'}, "
+                        "so the syntax it is meant to recognise (e.g. a `:::` directive fence in a substituted value) is treated as not loaded and the text is parsed differently from the same text at top level",
+                    )
+                else:
+                    rep.listed("C06.R7", k, site, f"{name!r} is not registered by markdown-it or the configured plugins (third-party rule?)")
+
+
+RULES = [r1_one_engine, r2_sibling_fences, r3_node_context, r4_state_restored, r5_result_fields, r6_text_conserved, r7_rule_lookups]
 
 
 # ---------------------------------------------------------------------------
@@ -1981,6 +2278,22 @@ def mutants(corpus: Corpus):
     add("c06-include-key-relative-to-swapped-source", "C06.R4", mk, kd.value if kd else None, "os.path.relpath(path, source_dir)", "key does not depend on state swapped")
     add("c06-include-key-file-name-only", "C06.R4", mk, kd.value if kd else None, "path.name", "key does not depend on state swapped")
     add("c06-include-key-relative-to-document-dir", "C06.R4", mk, kd.value if kd else None, 'str(path.relative_to(Path(self.document["source"]).parent))', "key does not depend on state swapped")
+
+    # ---- R7 (class: a syntax rule looked up in the wrong markdown-it chain)
+    c = find_node(sub, lambda n: is_call(n, "match") and "REGEX_DIRECTIVE_START" in unparse(n.func.value))
+    add("c06-colon-fence-looked-up-in-inline-chain", "C06.R7", base, c, f'({_seg(base, c)} and "colon_fence" in self.md.get_active_rules()["inline"])' if c is not None else "", "colon_fence", canary=False)
+    t = find_node(nrt, lambda n: isinstance(n, ast.If) and "front_matter" in unparse(n.test))
+    add("c06-front-matter-looked-up-in-core-chain", "C06.R7", base, t.test if t else None, f'{_seg(base, t.test)} and "front_matter" in self.md.get_active_rules()["core"]' if t else "", "front_matter")
+    if c is not None:
+        st = _stmt_of(c)
+        add(
+            "c06-substitution-rule-looked-up-via-local",
+            "C06.R7",
+            base,
+            st,
+            'active = self.md.get_active_rules()\n' + _indent(base, st) + 'if "substitution_inline" not in active["block"]:\n' + _indent(base, st) + "    inline = False\n" + _indent(base, st) + _seg(base, st),
+            "substitution_inline",
+        )
 
     # ---- R5
     run = base.func(R + "run_directive")
